@@ -230,7 +230,10 @@ def link(h, ob, outdir):
         hit = False
         for pretty, mangled in fns:
             if r_.search(pretty):
-                info["unwindset"].append("%s.%s:%d" % (mangled.rstrip(","), idx, bound))
+                if idx is None:      # recursion bound of the function itself
+                    info["unwindset"].append("%s:%d" % (mangled.rstrip(","), bound))
+                else:
+                    info["unwindset"].append("%s.%s:%d" % (mangled.rstrip(","), idx, bound))
                 hit = True
         if not hit and not ob.get("unwindset_optional"):
             raise RuntimeError("unwindset: no function matches %s" % rx)
